@@ -111,17 +111,11 @@ package fox
 
 //@ -- ---------------------------------------------------------------- C09 / C08: hostname first, path-only fallback
 
-//@ fun byPathNode(t *iTree, target *node, path string) *node
-//@ fun byPathTsr(t *iTree, target *node, path string) bool
 //@ fun byDomainNode(t *iTree, target *node, host string, path string) *node
 //@ fun byDomainTsr(t *iTree, target *node, host string, path string) bool
 
 //@ -- the two walks, abstracted for the caller (their mechanisms are specified separately)
-//@ extern lookupByPath
-//@   requires c != nil && c.params != nil && c.tsrParams != nil && c.skipNds != nil
-//@   requires safety-target: target != nil
-//@   modifies *c.params, *c.tsrParams, *c.skipNds, E[Param], E[skippedNode]
-//@   ensures n == byPathNode(tree, target, path) && tsr == byPathTsr(tree, target, path) && (tsr ==> n != nil) && (n != nil ==> n.route != nil)
+//@ -- lookupByPath is under contract in verif_contracts_walk.go
 //@ extern lookupByDomain
 //@   requires c != nil && c.params != nil && c.tsrParams != nil && c.skipNds != nil
 //@   requires safety-target: target != nil
@@ -130,7 +124,7 @@ package fox
 
 //@ func (roots).lookup props C09,C08,C01 partial
 //@   requires c != nil && c.params != nil && c.tsrParams != nil && c.skipNds != nil
-//@   modifies *c.params, *c.tsrParams, *c.skipNds, c.tsr, E[Param], E[skippedNode]
+//@   modifies C[Params], C[skippedNodes], c.tsr, E[Param], E[skippedNode], released
 //@   assert-at call lookupByDomain#1 : stripped-host: same(arg_host, netutil.StripHostPort(hostPort)) && same(arg_path, path) && arg_target == r[index] && arg_lazy == lazy
 //@   ensures tsr-flag: c.tsr ==> old(c.tsr)
 //@   ensures leaf: n != nil ==> n.route != nil
